@@ -487,11 +487,12 @@ def execute(sc):
                             return res
                         data.validate_spect_data_set(ds, k) if kind == "fix" else data.validate_spect_data_set(ds)
                         raised = None
-                    except ValueError as e:
+                    except HarnessError:
+                        raise
+                    except Exception as e:  # noqa (the documentation says ValueError; the property says "raises")
                         raised = e
-                    except Exception as e:  # noqa
-                        res.violate("validate.exception", f"{ctx} raised {type(e).__name__} (not the documented ValueError): {e}", exc=type(e).__name__)
-                        return res
+                        if not isinstance(e, ValueError):
+                            res.bump("probe.validate_raised_other_than_ValueError")
                     expect_ok = well if kind == "validate" else fixable
                     res.log.add(kind, k, "well", well, "fixable", fixable, "raised", bool(raised))
                     if expect_ok and raised is not None:
@@ -516,7 +517,9 @@ def execute(sc):
                         # stickiness: strict validation now passes, second fix changes nothing
                         try:
                             data.validate_spect_data_set(dataset())
-                        except ValueError as e:
+                        except HarnessError:
+                            raise
+                        except Exception as e:  # noqa
                             res.violate("fix.not-sticky", f"strict validation after a successful fix={k} raised: {e}")
                             return res
                         snap = fs.snapshot()
@@ -553,13 +556,10 @@ def execute(sc):
                     try:
                         rc = command_line.get_torch_spect_data_dir_info(args)
                         raised = None
-                    except ValueError as e:
-                        raised = e
+                    except HarnessError:
+                        raise
                     except Exception as e:  # noqa
-                        if well or mode != "none":
-                            res.violate("info.exception", f"info ({mode}) raised {type(e).__name__}: {e}", mode=mode, exc=type(e).__name__)
-                            return res
-                        continue
+                        raised = e
                     res.log.add("info", mode, k, "raised", bool(raised))
                     if mode == "none" and not well:
                         # not guaranteed to be correct; but it must not touch the directory
